@@ -36,7 +36,8 @@ LOG_ALPHA = math.log(1e-9)
 VECTORS = [["1", "1"], ["1", "2", "3"], ["1", "9"], ["1", "99"], ["1"] * 10, ["0.5", "0.25", "0.25"], ["3.4", "5", "3"],
            ["1", "0", "1"], ["2", "0", "0", "1"], ["1"] * 32, ["5", "15", "80"],
            ["3000000000", "3000000000"], ["1000000000", "1500000000", "2500000000"], ["100000000", "100000000", "50000000"],
-           ["40000000000000000000", "60000000000000000000"]]
+           ["40000000000000000000", "60000000000000000000"], ["0.0000000000004", "0.0000000000012"],
+           ["0.0000000000000000025", "0.0000000000000000025", "0.000000000000000005"]]
 SALT_PAIRS = [(None, "s1"), ("", "x"), ("exp_a", "exp_b"), ("exp1", "exp2"), ("é", "è"), ("salt", "salt2"), ("a", "aa"),
               ("日本", "日本語"), ("2024-01", "2024-02"), ("A", "a"),
               ("checkout-page-redesign-2026-q4-holdout-wave-1", "checkout-page-redesign-2026-q4-holdout-wave-2"),
@@ -84,6 +85,10 @@ FAMILIES = ["sequential-int", "sequential-str", "zero-padded", "uuid-random", "u
 def program(vec, salt, fields, shape="plain"):
     s = f"salt: {render_lit(Lit(salt, salt))} " if salt is not None else ""
     groups = ", ".join(f"{i} weighted {w}" for i, w in enumerate(vec))
+    if shape == "repeated-labels":
+        # control / treatment / control: a label's share is the sum of its weights
+        body = "return " + ", ".join(f"{i % 2} weighted {w}" for i, w in enumerate(vec))
+        return f"def pop {{ {s}splitters: {', '.join(fields)} {body} }}"
     if shape == "plain":
         body = f"return {groups}"
     elif shape == "splitter-in-condition":
@@ -129,7 +134,13 @@ def run(ctx):
         ws = [frac(w) for w in vec]
         W = sum(ws)
         results = {}
-        shape = rnd.choice(["plain", "plain", "splitter-in-condition", "condition-field"])
+        shape = rnd.choice(["plain", "plain", "splitter-in-condition", "condition-field", "repeated-labels"])
+        if shape == "repeated-labels":
+            if len(vec) < 3:
+                shape = "plain"
+            else:
+                ws = [sum(ws[0::2]), sum(ws[1::2])]  # what the two labels are owed
+                W = sum(ws)
         if shape == "condition-field":
             pop = [dict(e, tier="std") for e in pop]
         ctx.seen("program_shapes", shape)
@@ -154,7 +165,7 @@ def run(ctx):
                 ctx.violation("evaluation-failed", dict(text=text, family=fam, error=err), mechanism="C04/evaluation-failed")
                 break
             results[salt] = got
-            counts = [0] * len(vec)
+            counts = [0] * len(ws)
             for g in got:
                 counts[g] += 1
             expected = [float(w / W) * len(pop) for w in ws]
@@ -178,7 +189,7 @@ def run(ctx):
                 break
         else:
             a, b = results[s1], results[s2]
-            g = len(vec)
+            g = len(ws)
             table = [[0] * g for _ in range(g)]
             for x, y in zip(a, b):
                 table[x][y] += 1
